@@ -26,6 +26,10 @@ func TestDebugReplay(t *testing.T) {
 	for i, a := range cf.Actions {
 		err := m.Step(a)
 		t.Logf("%d %s -> %+v err=%v", i, a.String(), m.Outs[len(m.Outs)-1], err)
+		for _, val := range m.C.App.StakingKeeper.GetAllExocoreValidators(m.C.Ctx()) {
+			_, found := m.C.App.OperatorKeeper.ValidatorByConsAddrForChainID(m.C.Ctx(), val.Address, chainID)
+			t.Logf("    validator %x power %d resolvable=%v", val.Address[:4], val.Power, found)
+		}
 		for oi, o := range m.W.Operators {
 			ctx := m.C.Ctx()
 			rem := m.C.App.OperatorKeeper.IsOperatorRemovingKeyFromChainID(ctx, o.Acc(), chainID)
